@@ -206,11 +206,9 @@ impl Method for SMM {
 
 				#[allow(unsafe_code)]
 				unsafe {
-					std::ptr::copy(
-						self.slice.as_ptr().add(start),
-						self.slice.as_mut_ptr().add(dest),
-						count,
-					);
+					// both pointers come from one mutable borrow of the slice
+					let ptr = self.slice.as_mut_ptr();
+					std::ptr::copy(ptr.add(start), ptr.add(dest), count);
 				}
 			}
 
